@@ -70,7 +70,8 @@ QUICK_MC = ["fix_421", "fix_412", "fix_241", "fix_331", "fix_322", "fix_222", "f
 QUICK_MC6 = ["r6_53", "r6_44"]
 THOROUGH_MC = QUICK_MC + ["fix_333s", "fix_2111", "fix_64"]
 THOROUGH_MC6 = QUICK_MC6 + ["r6_222", "r6_64"]
-COVER_CFGS = [("cov_32", 2, 1), ("cov_211", 3, 1)]
+QUICK_COVER = ["cov_22", "cov_41", "cov_32", "cov_211", "cov_311"]
+THOROUGH_COVER = QUICK_COVER + ["cov_221", "cov_33"]
 
 
 def run_driver(exe, d, name, inp=None, random_n=0, seed=1, threads=3, objs=2, budget=5, timeout=900):
@@ -174,13 +175,13 @@ def run(prop, tier, seed):
         mcs = QUICK_MC if tier == "quick" else THOROUGH_MC
     else:
         mcs = QUICK_MC6 + ["fix_222"] if tier == "quick" else THOROUGH_MC6 + QUICK_MC
-    jobs = [(c, False) for c in mcs] + [("pinned_421", True)] + [(c, "dump") for c, _, _ in COVER_CFGS]
+    import gen_behaviours
+    covers = QUICK_COVER if tier == "quick" else THOROUGH_COVER
+    jobs = [(c, False) for c in mcs] + [("pinned_421", True)]
 
     def mc(job):
         c, kind = job
-        dump = os.path.join(d, c) if kind == "dump" else None
-        w = 4 if kind == "dump" else 6
-        return job, vlib.tlc("QsbrMC", "cfg/Qsbr/%s.cfg" % c, workers=w, deadlock=False, timeout=3000, dump=dump, xmx="12g")
+        return job, vlib.tlc("QsbrMC", "cfg/Qsbr/%s.cfg" % c, workers=6, deadlock=False, timeout=3000, xmx="12g")
     gen = dist = 0
     killer = None
     for (c, kind), r in vlib.parallel_map(mc, jobs, workers=4):
@@ -201,20 +202,24 @@ def run(prop, tier, seed):
     if killer:
         inputs.append(behaviour_line(killer, 1))
     cover_stats = {}
-    for c, nt, no in COVER_CFGS:
-        g = tlaparse.load_dot(os.path.join(d, c + ".dot"))
-        os.unlink(os.path.join(d, c + ".dot"))
-        paths = tlaparse.edge_cover(g)
+
+    def cover(c):
         if tier == "quick":
-            # a seeded sample of the cover (the full cover is replayed in the thorough tier)
-            import random
-            rnd = random.Random(seed)
-            rnd.shuffle(paths)
-            paths = paths[:2500]
-        for p in paths:
-            sts = [g.state(p[0][0])] + [g.state(e[3]) for e in p]
-            inputs.append(behaviour_line(sts, no))
-        cover_stats[c] = {"states": len(g.states), "edges": g.nedges, "paths_replayed": len(paths)}
+            # paths of the edge cover that traverse every abstract transition class at least
+            # twice (derived from the TLC graph by tools/gen_behaviours.py; regenerated when
+            # the spec changed)
+            hdr, lines = gen_behaviours.load(c)
+            if lines is None:
+                gen_behaviours.generate(c, d)
+                hdr, lines = gen_behaviours.load(c)
+            return c, lines, {"selection": hdr}
+        g, paths, r = gen_behaviours.graph_paths(c, d)
+        return c, gen_behaviours.lines_of(g, paths), {"states": len(g.states), "edges": g.nedges,
+                                                        "paths_replayed": len(paths), "full_edge_cover": True}
+    for c, lines, st in vlib.parallel_map(cover, covers, workers=4):
+        inputs += lines
+        st["behaviours"] = len(lines)
+        cover_stats[c] = st
     exes = vlib.build_many([dict(name="qsbr_driver", harness_srcs=["qsbr_driver.cpp"], config="dbg"),
                             dict(name="qsbr_driver", harness_srcs=["qsbr_driver.cpp"], config="asan")])
     nchunks = vlib.NCPU
